@@ -644,7 +644,8 @@ def _newton(ctx):
         x0e = subst_names(x0e, m_)
     cands = list(x0e.args) if isinstance(x0e, ast.Call) and (call_name(x0e) or "") in ("np.minimum", "min", "np.fmin") else [x0e]
     sf = prog.lookup_method(ci, "strain")
-    sret = [s_ for s_ in walk_function(sf.node) if isinstance(s_, ast.Return)][-1].value
+    from ..astutil import inline_single_defs
+    sret = inline_single_defs(sf.node, [s_ for s_ in walk_function(sf.node) if isinstance(s_, ast.Return)][-1].value)
     terms = []
 
     def flat(e):
